@@ -512,7 +512,21 @@ pub fn generate(seed: u64, tier: &str, property: &str) -> RegScenario {
             h.push(Op::SetPrefixesLate { prefixes: vec!["late/".to_string()] }, Some("late-set-fallback-prefixes"), false);
         } else if roll < 75 && !cloned {
             cloned = true;
-            h.push(Op::CloneSwap, None, false);
+            h.push(if rng.chance(1, 3) { Op::CloneKeep } else { Op::CloneSwap }, None, false);
+            if rng.chance(1, 2) {
+                // right away, on one side only: a replacement of the same byte length (whatever
+                // the two instances still share must not go stale on either side)
+                let cands: Vec<usize> = (0..n).filter(|i| !(use_disk && file_backed[*i]) && (h.current[*i].contains("hello") || h.current[*i].contains("world"))).collect();
+                if !cands.is_empty() {
+                    let with_dep: Vec<usize> = cands.iter().copied().filter(|i| h.has_dependents(*i)).collect();
+                    let i = if !with_dep.is_empty() { rng.pick(&with_dep) } else { rng.pick(&cands) };
+                    let src = h.current[i].replace("hello", "HELLO").replace("world", "WORLD");
+                    h.current[i] = src.clone();
+                    let dep = h.has_dependents(i);
+                    let name = h.name(i);
+                    h.push(Op::AddRaw { name, source: src }, Some("same-length-replacement-after-clone"), dep);
+                }
+            }
         } else if roll < 80 {
             h.push(Op::Restart, None, false);
         } else if use_disk {
@@ -571,8 +585,15 @@ pub fn generate(seed: u64, tier: &str, property: &str) -> RegScenario {
                     }
                 }
                 6 => {
-                    // load one file explicitly under its registry name (becomes manual)
-                    h.push(Op::AddFile { path: path.clone(), name: Some(name.clone()), faults: vec![] }, None, h.has_dependents(i));
+                    // load one file explicitly under its registry name (becomes manual); half of
+                    // the time from a path whose suffix says something else than the name
+                    if rng.chance(1, 2) {
+                        let alt = format!("alt/zz_alt{}{}", rng.below(2), rng.pick(&[".txt", ".html", ".tpl", "", ".xml", ".HTML"]));
+                        h.push(Op::DiskWrite { path: alt.clone(), hex: hx(&h.current[i].clone()) }, None, false);
+                        h.push(Op::AddFile { path: alt, name: Some(name.clone()), faults: vec![] }, Some("file-path-suffix-differs-from-name"), h.has_dependents(i));
+                    } else {
+                        h.push(Op::AddFile { path: path.clone(), name: Some(name.clone()), faults: vec![] }, None, h.has_dependents(i));
+                    }
                 }
                 7 if rng.chance(1, 2) => {
                     // a batch of 2-4 files in which one, at a random position, is unusable
